@@ -289,11 +289,16 @@ fn run_c20(id: &'static str, tier: Tier, seed: u64, ctx: &Ctx, sh: u32) -> Evide
     }
     let mut g = gen_default(30, true);
     g.big_caps = 1;
+    g.short_writes = true;
     let wc = WriterCampaign::new("mlw-panic", Rule::Panic, Seam::Mlw, g);
     if !driver::run_random(&wc, &ev, ctx, scale(tier.pick(10_000, 200_000)), sh) {
         return ev;
     }
-    let wt = WriterCampaign::new("mlw-panic-tinycap", Rule::Panic, Seam::MlwTiny, gen_default(20, true));
+    let wt = WriterCampaign::new("mlw-panic-tinycap", Rule::Panic, Seam::MlwTiny, {
+        let mut g = gen_default(20, true);
+        g.short_writes = true;
+        g
+    });
     if !driver::run_random(&wt, &ev, ctx, scale(tier.pick(5_000, 100_000)), sh) {
         return ev;
     }
@@ -382,6 +387,17 @@ fn run_sockets(id: &'static str, tier: Tier, seed: u64, ctx: &Ctx, sh: u32) -> E
     };
     let mut ev = Evidence::new(id, "exploration", tier, seed, rule);
     ev.assume("loopback UDP delivers a datagram before sendto returns or within the 2 s grace poll; Unix datagram sockets are reliable and synchronous");
+    if id == "C14" {
+        let bad = sockets::counter_volume_checks(tier == Tier::Thorough);
+        if let Some(b) = bad.first() {
+            ev.add_violation(driver::Violation {
+                campaign: "counter-volume".into(),
+                reason: b.clone(),
+                case: serde_json::json!({"fixed": "4300 refused emits of 1 MiB on one UDP sink (thorough: plus 72000 accepted emits of 60000 B)"}),
+            });
+            return ev;
+        }
+    }
     if id == "C13" {
         let bad = sockets::addr_resolution_checks();
         if let Some(b) = bad.first() {
